@@ -1238,7 +1238,12 @@ class SyncObj(object):
         self.__raftState = newState
         callback = self.__conf.onStateChanged
         if callback is not None and oldState != newState:
-            callback(oldState, newState)
+            # The role has changed: a failing callback must not stop what the caller does next
+            # (a new leader resets its match indexes and appends its no-op after this call).
+            try:
+                callback(oldState, newState)
+            except Exception:
+                logger.exception('failed to execute onStateChanged')
 
     def __onLeaderChanged(self):
         waiting, self.__commandsWaitingReply = self.__commandsWaitingReply, {}
